@@ -80,7 +80,158 @@ pub fn pv_opt_oh(r: Option<OH>) -> PV {
 }
 
 // ------------------------------------------------------------------ C01
-pub fn c01_compose(f: &RawOH, g: &RawOH) -> PV {
-    let (f, g) = (oh(f), oh(g));
+pub fn c01_compose(inp: &PV) -> PV {
+    let (f, g) = (oh(inp.at(0).oh()), oh(inp.at(1).oh()));
     pv_opt_oh(f.compose(&g))
+}
+
+pub fn pv_bool(b: bool) -> PV {
+    PV::T(tm::bconst(b))
+}
+pub fn pv_ix(a: &<K as ArrayKind>::Index) -> PV {
+    PV::of_ts(&K::rd_ix(a))
+}
+
+// ------------------------------------------------------------------ C17
+pub fn c17_acyclic(inp: &PV) -> PV {
+    let f = oh(inp.at(0).oh());
+    let a = f.is_acyclic();
+    let b = f.h.is_acyclic();
+    PV::List(vec![pv_bool(a), pv_bool(b)])
+}
+pub fn c17_monogamous(inp: &PV) -> PV {
+    pv_bool(oh(inp.at(0).oh()).is_monogamous())
+}
+pub fn c17_degrees(inp: &PV) -> PV {
+    let f = oh(inp.at(0).oh());
+    let v = K::mk_i(inp.at(1).t());
+    PV::List(vec![PV::T(K::rd_i(&f.h.in_degree(v.clone()))), PV::T(K::rd_i(&f.h.out_degree(v)))])
+}
+
+// ------------------------------------------------------------------ C15
+pub fn c15_layer(inp: &PV) -> PV {
+    let f = oh(inp.at(0).oh());
+    let (order, unvisited) = open_hypergraphs::strict::layer::layer(&f);
+    PV::List(vec![PV::FF(rd_ff(&order)), PV::of_ts(&K::rd_ix(&unvisited))])
+}
+pub fn c15_layered(inp: &PV) -> PV {
+    let f = oh(inp.at(0).oh());
+    let (groups, unvisited) = open_hypergraphs::strict::layer::layered_operations(&f);
+    let (order, _) = open_hypergraphs::strict::layer::layer(&f);
+    PV::List(vec![PV::List(groups.iter().map(|g| pv_ix(g)).collect()), pv_ix(&unvisited), PV::FF(rd_ff(&order))])
+}
+
+// ------------------------------------------------------------------ C02 / C03 / C04 (categorical structure)
+pub fn pv_oh(f: &OH) -> PV {
+    PV::OH(rd_oh(f))
+}
+pub fn pv_labels(a: &SL) -> PV {
+    PV::of_ts(&K::rd_ls(&a.0))
+}
+pub fn unit_oh() -> OH {
+    OpenHypergraph::identity(<OH as Monoidal>::unit())
+}
+pub fn c02_tensor(inp: &PV) -> PV {
+    let (f, g) = (oh(inp.at(0).oh()), oh(inp.at(1).oh()));
+    let r = f.tensor(&g);
+    let r2 = &f | &g;
+    PV::List(vec![pv_oh(&r), pv_labels(&r.source()), pv_labels(&r.target()), pv_oh(&r2)])
+}
+pub fn c02_assoc(inp: &PV) -> PV {
+    let (f, g, h) = (oh(inp.at(0).oh()), oh(inp.at(1).oh()), oh(inp.at(2).oh()));
+    PV::List(vec![pv_oh(&f.tensor(&g).tensor(&h)), pv_oh(&f.tensor(&g.tensor(&h)))])
+}
+pub fn c02_unit(inp: &PV) -> PV {
+    let f = oh(inp.at(0).oh());
+    let u = unit_oh();
+    PV::List(vec![pv_oh(&f.tensor(&u)), pv_oh(&u.tensor(&f)), pv_oh(&u)])
+}
+fn opt2(a: Option<OH>, b: Option<OH>) -> PV {
+    PV::List(vec![pv_opt_oh(a), pv_opt_oh(b)])
+}
+pub fn c03_assoc(inp: &PV) -> PV {
+    let (f, g, h) = (oh(inp.at(0).oh()), oh(inp.at(1).oh()), oh(inp.at(2).oh()));
+    let l = f.compose(&g).and_then(|fg| fg.compose(&h));
+    let r = g.compose(&h).and_then(|gh| f.compose(&gh));
+    opt2(l, r)
+}
+pub fn c03_ident(inp: &PV) -> PV {
+    let f = oh(inp.at(0).oh());
+    let l = OH::identity(f.source()).compose(&f);
+    let r = f.compose(&OH::identity(f.target()));
+    opt2(l, r)
+}
+pub fn c03_interchange(inp: &PV) -> PV {
+    let (f, g, h, k) = (oh(inp.at(0).oh()), oh(inp.at(1).oh()), oh(inp.at(2).oh()), oh(inp.at(3).oh()));
+    let l = f.tensor(&g).compose(&h.tensor(&k));
+    let r = match (f.compose(&h), g.compose(&k)) {
+        (Some(a), Some(b)) => Some(a.tensor(&b)),
+        _ => None,
+    };
+    opt2(l, r)
+}
+pub fn c03_twist_nat(inp: &PV) -> PV {
+    let (f, g) = (oh(inp.at(0).oh()), oh(inp.at(1).oh()));
+    let l = f.tensor(&g).compose(&OH::twist(f.target(), g.target()));
+    let r = OH::twist(f.source(), g.source()).compose(&g.tensor(&f));
+    opt2(l, r)
+}
+pub fn c03_twist_inv(inp: &PV) -> PV {
+    let (a, b) = (sl(&inp.at(0).ts()), sl(&inp.at(1).ts()));
+    let l = OH::twist(a.clone(), b.clone()).compose(&OH::twist(b.clone(), a.clone()));
+    let r = Some(OH::identity(a.coproduct(&b)));
+    let tw = OH::twist(a, b);
+    PV::List(vec![pv_opt_oh(l), pv_opt_oh(r), pv_oh(&tw), pv_labels(&tw.source()), pv_labels(&tw.target())])
+}
+pub fn c03_hexagon(inp: &PV) -> PV {
+    let (a, b, c) = (sl(&inp.at(0).ts()), sl(&inp.at(1).ts()), sl(&inp.at(2).ts()));
+    let id = |x: &SL| OH::identity(x.clone());
+    // σ_{a, b●c} = (σ_{a,b} ⊗ id_c) ; (id_b ⊗ σ_{a,c})
+    let l1 = Some(OH::twist(a.clone(), b.coproduct(&c)));
+    let r1 = OH::twist(a.clone(), b.clone()).tensor(&id(&c)).compose(&id(&b).tensor(&OH::twist(a.clone(), c.clone())));
+    // σ_{a●b, c} = (id_a ⊗ σ_{b,c}) ; (σ_{a,c} ⊗ id_b)
+    let l2 = Some(OH::twist(a.coproduct(&b), c.clone()));
+    let r2 = id(&a).tensor(&OH::twist(b.clone(), c.clone())).compose(&OH::twist(a.clone(), c.clone()).tensor(&id(&b)));
+    PV::List(vec![pv_opt_oh(l1), pv_opt_oh(r1), pv_opt_oh(l2), pv_opt_oh(r2)])
+}
+pub fn c04_dagger(inp: &PV) -> PV {
+    let f = oh(inp.at(0).oh());
+    let d = f.dagger();
+    PV::List(vec![pv_oh(&d), pv_oh(&d.dagger())])
+}
+pub fn c04_dagger_tensor(inp: &PV) -> PV {
+    let (f, g) = (oh(inp.at(0).oh()), oh(inp.at(1).oh()));
+    PV::List(vec![pv_oh(&f.tensor(&g).dagger()), pv_oh(&f.dagger().tensor(&g.dagger()))])
+}
+pub fn c04_dagger_compose(inp: &PV) -> PV {
+    let (f, g) = (oh(inp.at(0).oh()), oh(inp.at(1).oh()));
+    opt2(f.compose(&g).map(|x| x.dagger()), g.dagger().compose(&f.dagger()))
+}
+pub fn c04_spider(inp: &PV) -> PV {
+    let (s, t, w) = (ff_raw(inp.at(0).ff()), ff_raw(inp.at(1).ff()), sl(&inp.at(2).ts()));
+    let a = OH::spider(s.clone(), t.clone(), w.clone());
+    let b = <OH as Spider<K>>::spider(s, t, w);
+    PV::List(vec![pv_opt_oh(a), pv_opt_oh(b)])
+}
+pub fn c04_half_spider(inp: &PV) -> PV {
+    let (s, w) = (ff_raw(inp.at(0).ff()), sl(&inp.at(1).ts()));
+    let a = <OH as Spider<K>>::half_spider(s.clone(), w.clone());
+    let b = OH::spider(s.clone(), FF::identity(s.target()), w);
+    PV::List(vec![pv_opt_oh(a), pv_opt_oh(b)])
+}
+pub fn c04_fusion(inp: &PV) -> PV {
+    let a = OH::spider(ff_raw(inp.at(0).ff()), ff_raw(inp.at(1).ff()), sl(&inp.at(2).ts())).expect("gen: well-typed spider");
+    let b = OH::spider(ff_raw(inp.at(3).ff()), ff_raw(inp.at(4).ff()), sl(&inp.at(5).ts())).expect("gen: well-typed spider");
+    let r = a.compose(&b);
+    let disc = r.as_ref().map(|r| r.h.is_discrete());
+    PV::List(vec![pv_opt_oh(r), match disc { Some(d) => pv_bool(d), None => PV::None }])
+}
+pub fn c04_id_twist_spiders(inp: &PV) -> PV {
+    let (a, b) = (sl(&inp.at(0).ts()), sl(&inp.at(1).ts()));
+    let id = OH::identity(a.clone());
+    let n = a.len();
+    let id_sp = OH::spider(FF::identity(n.clone()), FF::identity(n), a.clone());
+    let tw = OH::twist(a.clone(), b.clone());
+    let tw_sp = OH::spider(FF::twist(a.len(), b.len()), FF::identity(a.len() + b.len()), b.coproduct(&a));
+    PV::List(vec![pv_oh(&id), pv_opt_oh(id_sp), pv_oh(&tw), pv_opt_oh(tw_sp)])
 }
